@@ -3,9 +3,11 @@ package c07
 import (
 	"errors"
 	"fmt"
+	"regexp"
 
 	"github.com/nspcc-dev/neo-go/pkg/core"
 	"github.com/nspcc-dev/neo-go/pkg/core/transaction"
+	"github.com/nspcc-dev/neo-go/pkg/smartcontract/trigger"
 	"github.com/nspcc-dev/neo-go/pkg/io"
 	"github.com/nspcc-dev/neo-go/pkg/util"
 	"pgregory.net/rapid"
@@ -53,6 +55,21 @@ type PropCase struct {
 	TimeD   uint32         `json:"time_d"`
 	Nonce   uint64         `json:"nonce"`
 	Primary int            `json:"primary"`
+	// Mid > 0: a block is accepted between the first and the second (Late) pass of offers: 1 an empty one, 2 one
+	// made of the MidK best pooled transactions (the pool is refreshed by it, the late offers meet the refreshed pool).
+	Mid  int `json:"mid,omitempty"`
+	MidK int `json:"mid_k,omitempty"`
+	// Aim != nil: MaxBlockSize is not drawn but derived from the case: the case is first evaluated with the wide
+	// default, the real encoding of a block holding the best Cut pooled transactions is measured, and the case is
+	// then evaluated with MaxBlockSize = that size + Delta (Delta in -2..2), so that the size rule binds exactly
+	// there - including at 253 transactions, where the count prefix grows from 1 to 3 bytes.
+	Aim *PAim `json:"aim,omitempty"`
+}
+
+// PAim aims MaxBlockSize at a cut of the pool order.
+type PAim struct {
+	Cut   int `json:"cut"`
+	Delta int `json:"delta"`
 }
 
 func genPropCase(t *rapid.T) PropCase {
@@ -71,12 +88,29 @@ func genPropCase(t *rapid.T) PropCase {
 	}
 	c.History = genHistory(t, 3)
 	n := rapid.IntRange(5, 80).Draw(t, "ntx")
+	// many: a pool of 250-330 small transactions, the size limit aimed at a cut around the 252/253 boundary.
+	many := rapid.IntRange(0, 9).Draw(t, "many") == 0
+	sizes := []int{1, 3, 40, 100, 253, 400, 1000, 3000}
+	if many {
+		n = rapid.IntRange(270, 340).Draw(t, "ntx_many")
+		sizes = []int{1, 1, 2, 3, 5, 8, 40}
+		c.Chain.MaxBlockSize, c.Chain.MaxTxPerBlock, c.Chain.MaxBlockSysFee = 0, 0, 0
+		c.Aim = &PAim{Cut: rapid.SampledFrom([]int{250, 251, 252, 252, 253, 253, 254, 255, 260}).Draw(t, "aim_cut_many"), Delta: rapid.IntRange(-2, 2).Draw(t, "aim_delta")}
+	} else if focus == "size" && rapid.Bool().Draw(t, "aimed") {
+		c.Aim = &PAim{Cut: rapid.IntRange(1, n).Draw(t, "aim_cut"), Delta: rapid.IntRange(-2, 2).Draw(t, "aim_delta")}
+	}
+	switch rapid.IntRange(0, 5).Draw(t, "mid") {
+	case 0, 1:
+		c.Mid = 1
+	case 2:
+		c.Mid, c.MidK = 2, rapid.IntRange(1, 6).Draw(t, "mid_k")
+	}
 	for i := 0; i < n; i++ {
 		p := PTx{
 			Payer:      rapid.IntRange(0, 5).Draw(t, "payer"),
 			CoSigner:   rapid.IntRange(-1, 3).Draw(t, "cosigner"),
 			SysFee:     rapid.SampledFrom([]int64{0, 1000, 100000, 1_0000_0000, 3_0000_0000, 8_0000_0000, 8_0000_0000}).Draw(t, "sysfee"),
-			ScriptSize: rapid.SampledFrom([]int{1, 3, 40, 100, 253, 400, 1000, 3000}).Draw(t, "ssize"),
+			ScriptSize: rapid.SampledFrom(sizes).Draw(t, "ssize"),
 			ExtraFee:   rapid.SampledFrom([]int64{0, 0, 1, 1000, 50000, 1000000, 1000001}).Draw(t, "extra"),
 			High:       rapid.IntRange(0, 9).Draw(t, "high") == 0,
 			Conf:       -1,
@@ -84,13 +118,16 @@ func genPropCase(t *rapid.T) PropCase {
 			Nonce:      rapid.Uint32().Draw(t, "nonce"),
 			VUB:        uint32(rapid.IntRange(0, 50).Draw(t, "vub")),
 		}
-		if rapid.IntRange(0, 7).Draw(t, "hasmulti") == 0 {
+		if many {
+			p.SysFee, p.CoSigner, p.VUB = 0, -1, max(p.VUB, 2)
+		}
+		if !many && rapid.IntRange(0, 7).Draw(t, "hasmulti") == 0 {
 			p.Multi = rapid.IntRange(1, 3).Draw(t, "multi")
 		}
-		if i > 0 && rapid.IntRange(0, 5).Draw(t, "hasconf") == 0 {
+		if i > 0 && rapid.IntRange(0, 5).Draw(t, "hasconf") == 0 && (!many || i%7 == 0) {
 			p.Conf = rapid.IntRange(0, i-1).Draw(t, "conf")
 		}
-		if rapid.IntRange(0, 11).Draw(t, "hasenc") == 0 {
+		if !many && rapid.IntRange(0, 11).Draw(t, "hasenc") == 0 {
 			p.Enc = &encPick{Pos: rapid.IntRange(0, 12).Draw(t, "epos"), Form: rapid.IntRange(0, 2).Draw(t, "eform")}
 		}
 		c.Txs = append(c.Txs, p)
@@ -127,6 +164,43 @@ func checkPropCase(c PropCase, o *vt.Obs) error {
 // checkProp evaluates one proposal case. nonCanon: non-minimal encodings are offered; srihKnown: the listed
 // finding about the state-root bytes is tolerated.
 func checkProp(c PropCase, o *vt.Obs, nonCanon, srihKnown bool) error {
+	if c.Aim != nil {
+		// first pass: measure; second pass: the same case under the aimed limit.
+		wide := c
+		wide.Chain.MaxBlockSize = 0
+		wide.Aim = nil
+		var size, cut int
+		if err := checkProp1(wide, &vt.Obs{}, nonCanon, srihKnown, &measure{cut: c.Aim.Cut, size: &size, got: &cut}); err != nil {
+			return err
+		}
+		if cut == 0 {
+			o.Label("aim-empty-pool")
+			return nil
+		}
+		aimed := c
+		aimed.Aim = nil
+		aimed.Chain.MaxBlockSize = uint32(size + max(min(c.Aim.Delta, 2), -2))
+		o.Labelf("aimed-size-delta-%d", max(min(c.Aim.Delta, 2), -2))
+		switch {
+		case cut >= 253:
+			o.Label("aimed-cut-253-or-more")
+		case cut == 252:
+			o.Label("aimed-cut-252")
+		}
+		return checkProp1(aimed, o, nonCanon, srihKnown, nil)
+	}
+	return checkProp1(c, o, nonCanon, srihKnown, nil)
+}
+
+// measure asks checkProp1 to stop once the pool is filled and to report the encoded size of a block holding the
+// best cut pooled transactions.
+type measure struct {
+	cut  int
+	size *int
+	got  *int
+}
+
+func checkProp1(c PropCase, o *vt.Obs, nonCanon, srihKnown bool, ms *measure) error {
 	e, err := newEnv(c.Chain)
 	if err != nil {
 		return err
@@ -153,6 +227,9 @@ func checkProp(c PropCase, o *vt.Obs, nonCanon, srihKnown bool) error {
 		if i == victim {
 			p.Enc = nil           // the victim is an ordinary canonical transaction
 			p.VUB = max(p.VUB, 1) // still inside its validity window after B's block
+			if c.Mid > 0 {
+				p.VUB = max(p.VUB, 2) // ... and after the block between the offers
+			}
 		}
 		spec := TxSpec{
 			Signers:    []SignerSpec{accountSigner(mod(p.Payer, 6))},
@@ -318,6 +395,7 @@ func checkProp(c PropCase, o *vt.Obs, nonCanon, srihKnown bool) error {
 		tx, _ := transaction.NewTransactionFromBytes(raws[i])
 		if err := bc.PoolTx(tx); err != nil {
 			rejected++
+			o.Labelf("offer-rejected: %s", errClass(err))
 			return
 		}
 		accepted++
@@ -325,6 +403,31 @@ func checkProp(c PropCase, o *vt.Obs, nonCanon, srihKnown bool) error {
 	for i, p := range c.Txs {
 		if !p.Late {
 			offer(i)
+		}
+	}
+	switch c.Mid {
+	case 1:
+		if err := e.rawBlock(); err != nil {
+			return fmt.Errorf("empty block between the offers: %v", err)
+		}
+		o.Label("mid-block-empty")
+	case 2:
+		pooled := bc.GetMemPool().GetVerifiedTransactions()
+		kk := min(max(c.MidK, 1), len(pooled))
+		if err := e.rawBlock(pooled[:kk]...); err != nil {
+			return fmt.Errorf("block of the %d best pooled transactions between the offers: %v", kk, err)
+		}
+		o.Label("mid-block-from-pool")
+	}
+	if c.Mid > 0 {
+		// nothing that is on chain or outside its validity window may stay pooled
+		for _, tx := range bc.GetMemPool().GetVerifiedTransactions() {
+			if aers, err := bc.GetAppExecResults(tx.Hash(), trigger.Application); err == nil && len(aers) > 0 {
+				return fmt.Errorf("transaction %s is on chain and still pooled after the block", tx.Hash().StringLE())
+			}
+			if tx.ValidUntilBlock <= bc.BlockHeight() {
+				return fmt.Errorf("transaction %s (ValidUntilBlock %d) still pooled at height %d", tx.Hash().StringLE(), tx.ValidUntilBlock, bc.BlockHeight())
+			}
 		}
 	}
 	for i, p := range c.Txs {
@@ -335,6 +438,12 @@ func checkProp(c PropCase, o *vt.Obs, nonCanon, srihKnown bool) error {
 	o.Units(accepted)
 	if rejected > 0 {
 		o.Label("some-offers-rejected")
+	}
+	if victim >= 0 && !c.Conf.Before && c.Mid == 2 {
+		// the block between the offers put pooled transactions on chain: the victim may be one of them, may name one
+		// of them or be named by one of them, so the expectations of the scenario below do not hold as written.
+		victim = -1
+		o.Label("onchain-conflict-skipped-after-pool-block")
 	}
 	if victim >= 0 && !c.Conf.Before {
 		if bc.GetMemPool().ContainsKey(hashes[victim]) {
@@ -355,6 +464,26 @@ func checkProp(c PropCase, o *vt.Obs, nonCanon, srihKnown bool) error {
 				verified[i-1].HasAttribute(transaction.HighPriority), verified[i].HasAttribute(transaction.HighPriority),
 				verified[i-1].FeePerByte(), verified[i].FeePerByte(), verified[i-1].NetworkFee, verified[i].NetworkFee)
 		}
+	}
+	switch n := len(verified); {
+	case n >= 253:
+		o.Label("pool-253-or-more")
+	case n >= 100:
+		o.Label("pool-100-252")
+	}
+	if ms != nil {
+		*ms.got = min(max(ms.cut, 1), len(verified))
+		if *ms.got == 0 {
+			return nil
+		}
+		mb, err := k.b.NextBlock(verified[:*ms.got], c.TimeD, c.Nonce, c.Primary)
+		if err != nil {
+			return fmt.Errorf("assembling the measured block: %v", err)
+		}
+		mw := io.NewBufBinWriter()
+		mb.EncodeBinary(mw.BinWriter)
+		*ms.size = len(mw.Bytes())
+		return nil
 	}
 	sel := verified
 	if len(sel) > 0 { // consensus calls ApplyPolicyToTxSet only for a non-empty set
@@ -512,4 +641,14 @@ func cmpPriority(a, b *transaction.Transaction) int {
 		return -1
 	}
 	return 0
+}
+
+var (
+	reHex = regexp.MustCompile(`[0-9a-fA-F]{8,}`)
+	reNum = regexp.MustCompile(`[0-9]+`)
+)
+
+// errClass is the text of an error with hashes and numbers blanked (they vary from case to case).
+func errClass(err error) string {
+	return reNum.ReplaceAllString(reHex.ReplaceAllString(err.Error(), "H"), "N")
 }
